@@ -146,6 +146,10 @@ pub fn t_numeric<const N: usize>(d1: usize, d2: usize, d3: usize, d4: usize) {
         Ok((rest, h)) => {
             assert!(is_suffix(input, rest));
             assert!(h.remove.target_line >= 0 && h.add.target_line >= 0);
+            // interface with placement: c11c_place_any_line decides try_apply_hunk's arithmetic (line + 1, line + offset, scans) for
+            // every stated line up to isize::MAX / 2 -- the parser must not hand out anything beyond that
+            assert!(h.remove.target_line <= isize::max_value() / 2 && h.add.target_line <= isize::max_value() / 2,
+                    "start line beyond the range placement arithmetic is safe for (isize::MAX / 2)");
             assert!(h.remove.content.capacity() <= N && h.add.content.capacity() <= N, "allocation out of proportion to the input");
             kani::cover!(true, "hunk parsed");
             std::mem::forget(h);
